@@ -102,6 +102,7 @@ def member_name(member):
 def _sym_only(name):
     def f(*a):
         raise NotImplementedError(name + ": symbolic only")
+    f._pyvc_always = True
     return f
 
 
